@@ -132,6 +132,11 @@ func runC11(c *Ctx) {
 	if endPkt != nil {
 		p.Pkts = append(append([]CPkt{}, pk...), *endPkt)
 	}
+	if tr == "legacy" && c.T.Bool(1, 4) {
+		// the client retries its RDG_IN_DATA request (same connection id) while the tunnel is
+		// alive; the retry is refused, and the tunnel's end releases everything all the same
+		p.DupIn, p.DupAfter = 2, c.T.Choose(len(p.Pkts)+1)
+	}
 	// data in flight at the moment of the end: stall one direction at the gateway
 	inflight := c.T.Bool(1, 2) && strings.HasPrefix(point, "data")
 	tw.Tuns = StartTunnels(c, tw.Plans)
